@@ -162,6 +162,8 @@ type Engine struct {
 	Info *types.Info
 	// TrackCall names a call as an effect ("" = not tracked).
 	TrackCall func(call *ast.CallExpr, callee *types.Func) string
+	// GoLitCalls: record the tracked calls inside the literal of a `go func() {…}()` statement at the go statement.
+	GoLitCalls bool
 	// TrackStore names an assignment target as an effect ("" = not tracked).
 	TrackStore func(lhs ast.Expr, key string) string
 	// Classify maps a code atom to a reference atom (name, negated). "" = unknown.
@@ -429,6 +431,30 @@ func (e *Engine) execStmt(v *env, s ast.Stmt, k cont) {
 	case *ast.GoStmt:
 		e.effectsArgs(v, s.Call, func(v *env) {
 			v.events = append(v.events, Event{Kind: "go", Name: e.deferName(s.Call), Pos: s.Pos(), Node: s})
+			// GoLitCalls: the tracked calls of `go func() { … }()` are recorded here, with the values their arguments have
+			// when the goroutine is started (the literal captures them; a rule that needs more must say so)
+			if lit, ok := ast.Unparen(s.Call.Fun).(*ast.FuncLit); ok && e.GoLitCalls && e.TrackCall != nil {
+				ast.Inspect(lit.Body, func(n ast.Node) bool {
+					if _, nested := n.(*ast.FuncLit); nested {
+						return false
+					}
+					if c, ok := n.(*ast.CallExpr); ok {
+						if nm := e.TrackCall(c, core.Callee(e.Info, c)); nm != "" {
+							ev := Event{Kind: "call", Name: nm, Pos: c.Pos(), Node: c}
+							for _, a := range c.Args {
+								ev.Args = append(ev.Args, e.key(v, a))
+							}
+							if sel, ok := ast.Unparen(c.Fun).(*ast.SelectorExpr); ok {
+								if _, isSel := e.Info.Selections[sel]; isSel {
+									ev.Recv = e.key(v, sel.X)
+								}
+							}
+							v.events = append(v.events, ev)
+						}
+					}
+					return true
+				})
+			}
 			k(v, ctlNext)
 		})
 	case *ast.SendStmt:
